@@ -1012,3 +1012,96 @@ def eof_fallback_ps(report, rid, db, S):
         report.violation(rid, 'eof-fallback:noreturn', fi.path, fi.node,
                          fi.qualname, 'the EOF fallback never reports the '
                          'exception as handled')
+
+
+# -- sequences and mappings built from one iteration ------------------------
+# However a table is spelt -- a dict comprehension, dict() of pairs, dict(zip
+# (keys, values)), a loop filling an empty dict -- it is "for el in D:
+# table[key(el)] = val(el)"; these helpers read D, key and val off the term.
+
+def _strip_seq(t):
+    """tuple(x) / list(x) / iter(x) iterate like x."""
+    while t[0] == 'op' and t[1] in ('tuple', 'list', 'iter') and \
+            len(t[2]) == 1:
+        t = t[2][0]
+    return t
+
+
+def seq_form(t):
+    """(domain, el, value, filtered): the sequence is [value for el in
+    domain]; el is None for the domain itself."""
+    from .pathsum import struct
+    t = _strip_seq(t)
+    if t[0] == 'op' and t[1] in ('genexp', 'listcomp') and \
+            len(t[2][0][1]) == 1 and len(t[2][1][1]) == 1 and \
+            len(t[2][1][1][0][1]) == 1:
+        it = t[2][0][1][0]
+        val = t[2][1][1][0][1][0]
+        filtered = bool(t[2][2][1])
+        el = None
+        from .pathsum import subterms
+        for x in subterms(val):
+            if x[0] == 'elem' and struct(x[1]) == struct(it):
+                el = x
+                break
+        if val[0] == 'elem' and struct(val[1]) == struct(it):
+            el = val
+        inner = seq_form(it)
+        if inner[1] is None:
+            return (inner[0], el, val, filtered or inner[3])
+        return (it, el, val, filtered)
+    if t[0] == 'op' and t[1] == 'map' and len(t[2]) == 2:
+        inner = seq_form(t[2][1])
+        if inner[1] is None:
+            el = ('elem', inner[0], 0)
+            return (inner[0], el, ('call', t[2][0], (el,), (), 0),
+                    inner[3])
+    return (t, None, None, False)
+
+
+def mapping_form(v, path=None):
+    """(domain, el, key, val) of a mapping-valued term, or None."""
+    from .pathsum import struct, replace
+    if v[0] == 'op' and v[1] == 'dictcomp' and len(v[2][0][1]) == 1 and \
+            len(v[2][1][1]) == 1 and not v[2][2][1]:
+        it = v[2][0][1][0]
+        key, val = v[2][1][1][0][1]
+        el = next((x for x in (val, key) if x[0] == 'elem'), None)
+        dom = seq_form(it)
+        return (dom[0] if dom[1] is None else it, el, key, val)
+    if v[0] == 'op' and v[1] in ('dict', 'OrderedDict') and len(v[2]) == 1:
+        a = _strip_seq(v[2][0])
+        if a[0] == 'op' and a[1] == 'zip' and len(a[2]) == 2:
+            k, w = seq_form(a[2][0]), seq_form(a[2][1])
+            if k[3] or w[3] or struct(k[0]) != struct(w[0]):
+                return None
+            el = k[1] or w[1] or ('elem', k[0], 0)
+            key = el if k[1] is None else replace(k[2], k[1], el)
+            val = el if w[1] is None else replace(w[2], w[1], el)
+            return (k[0], el, key, val)
+        s = seq_form(a)
+        if s[1] is not None and not s[3] and s[2][0] == 'tuple' and \
+                len(s[2][1]) == 2:
+            return (s[0], s[1], s[2][1][0], s[2][1][1])
+        return None
+    if v[0] == 'phi' and path is not None:
+        for lp in [e for e in path.events if e.kind == 'loop']:
+            pre = (lp.pre or {}).get(v[1])
+            if pre != ('dict', ()):
+                continue
+            ph = (lp.phis or {}).get(v[1])
+            for q in lp.paths:
+                sets = [e for e in q.flat(('setitem',)) if e.base == ph]
+                others = [e for e in q.flat(('setitem', 'delitem', 'call'))
+                          if e not in sets and any(
+                              t == ph for t in [e.base] + list(
+                                  e.args or ()) if t is not None)]
+                if len(sets) == 1 and not others and \
+                        q.outcome[0] in ('fall', 'continue') and \
+                        len(lp.paths) == 1:
+                    dom = seq_form(lp.ctx)
+                    el = next((x for x in (sets[0].value, sets[0].key)
+                               if x[0] == 'elem'), None)
+                    return (dom[0] if dom[1] is None else lp.ctx, el,
+                            sets[0].key, sets[0].value)
+    return None
